@@ -21,6 +21,8 @@ func C02(c *core.Ctx) {
 		)
 	}
 	ops = append(ops, pub("X", "zz", 0, 0, p8k), Action{Kind: "pub", Client: "X", Topic: "t", QoS: 2, ID: 1, Payload: p8k})
+	// a topic the broker does not route (first level starts with '$'): it is acknowledged all the same
+	ops = append(ops, pub("X", "$SYS/x", 1, 2, "S1"))
 	comps := map[string]bool{"acks": true, "route": true, "stream": true, "closed": true}
 	prefix := []Action{conn("S", "s", true), sub("S", 1, "t", 2), conn("X", "x", true)}
 	d1, d2 := 6, 4
